@@ -1,9 +1,9 @@
 SPECIFICATION Spec
 CONSTANTS
-  MaxDgrams = 3
+  MaxDgrams = 2
   Senders = {"s1"}
-  SpawnPerEvent = TRUE
+  SpawnPerEvent = FALSE
   DropWhenBusy = FALSE
-  DoneOnClose = FALSE
-INVARIANT EventsInOrderOnce
+  DoneOnClose = TRUE
+INVARIANT NoSendOnClosedPipe
 CHECK_DEADLOCK FALSE
